@@ -36,7 +36,21 @@ func dbTest(t *testing.T, prop, test, rule string, p Profile, opt Options) {
 	})
 }
 
-var profC01 = Profile{W: with(baseWeights(), map[int]int{opSnapshot: 5, opQuery: 5, opChanges: 1, opNext: 2, opGC: 1, opCloseIter: 1}), GC: 25, TwoTxns: true, Unlocked: true}
+// crowdedPrefixPreamble: many objects under ONE prefix of the non-unique LPM
+// index (the per-prefix object list grows to 7), inserted so that each new
+// object lands in the middle of the list, with snapshots retained in between.
+var crowdedPrefixPreamble = func() []Op {
+	hot := []P{{Bits: 0xa000, Len: 4}}
+	ins := func(id ...byte) Op { return Op{K: opInsert, ID: id, Pfx: hot, P: 1} }
+	return []Op{
+		ins(), ins(0xff), ins('a', 0x01), ins('a', 0x00), {K: opCommit}, {K: opSnapshot},
+		ins('a'), {K: opCommit}, {K: opSnapshot},
+		ins(0x01), {K: opCommit}, {K: opSnapshot},
+		ins(0x00, 0x00),
+	}
+}()
+
+var profC01 = Profile{PreambleOneIn: 5, Preambles: [][]Op{crowdedPrefixPreamble}, W: with(baseWeights(), map[int]int{opSnapshot: 5, opQuery: 5, opChanges: 1, opNext: 2, opGC: 1, opCloseIter: 1}), GC: 25, TwoTxns: true, Unlocked: true}
 
 const ruleC01 = "histories of up to ~50 operations over 1-3 tables with random index sets (unique multi-key, non-unique multi-key, non-unique LPM, unique LPM): write transactions (one or two open at once) with inserts, key-changing updates, deletes, CAS/CAD, commits and aborts, change iterators and (25% of cases) the graveyard worker; up to 6 snapshots are retained (db.ReadTxn() at arbitrary points), a full audit (every query kind for every alphabet key on every index, counts, revision, initialization) is recorded when each is taken, sampled re-audits follow every later operation and a full re-audit ends the case. Non-trivial = a retained snapshot was re-audited after a later committed write; distinct by case encoding."
 
